@@ -13,7 +13,8 @@ const MSGS: [&str; 7] = ["boom", "two words", "x=1", "bad: value", "e#1", "no \\
 
 fn gen_ops(r: &mut Rng, n: usize) -> Vec<Value> {
     (0..n)
-        .map(|_| match r.below(12) {
+        .map(|_| match r.below(14) {
+            12 | 13 => json!({"k": "scriptcmd", "c": r.pick(&["array_is_empty nohandle", "map_is_empty nohandle", "set_is_empty nohandle", "map_contains_key nohandle k", "map_contains_value nohandle v"])}),
             0 | 1 => json!({"k": "ok"}),
             2 | 3 => json!({"k": "trig", "m": r.pick(&MSGS)}),
             4 => json!({"k": "trig0"}),
@@ -49,6 +50,8 @@ fn render(prefix: &str, i: usize, op: &Value) -> String {
         "gl" => format!("{} = get_last_error_line", o),
         "gs" => format!("{} = get_last_error_source", o),
         "eoe" => format!("{} = exit_on_error {}", o, op["v"].as_str().unwrap_or("")),
+        // a script-implemented library command whose body fails (bad handle): the error surfaces at this line
+        "scriptcmd" => format!("{} = {}", o, op["c"].as_str().unwrap_or("array_is_empty nohandle")),
         // a library command that fails (array_pop of something that is no handle)
         _ => format!("{} = array_pop nohandle", o),
     }
@@ -84,7 +87,7 @@ fn step(m: &mut Model, prefix: &str, i: usize, op: &Value, line: usize, source: 
         "trig" | "aerr" => error(m, Some(op["m"].as_str().unwrap_or("").replace("\\$", "$"))),
         "trig0" => error(m, Some("Error".to_string())),
         "aerr0" => error(m, Some("Assert failed.".to_string())),
-        "libcmd" => error(m, None),
+        "libcmd" | "scriptcmd" => error(m, None),
         "ge" => match &m.last {
             Some((Some(msg), _, _)) => {
                 m.vars.insert(o, msg.clone());
